@@ -10,6 +10,9 @@ import (
 
 	abci "github.com/tendermint/tendermint/abci/types"
 	"github.com/tendermint/tendermint/crypto/ed25519"
+	"github.com/tendermint/tendermint/crypto/merkle"
+	tmbytes "github.com/tendermint/tendermint/libs/bytes"
+	tmcrypto "github.com/tendermint/tendermint/proto/tendermint/crypto"
 	"github.com/tendermint/tendermint/crypto/tmhash"
 	vp "github.com/tendermint/tendermint/internal/verifvp"
 	tmversion "github.com/tendermint/tendermint/proto/tendermint/version"
@@ -49,6 +52,7 @@ func vpMakeChain() *vpChainData {
 		b.Header.ValidatorsHash, b.Header.NextValidatorsHash = vals.Hash(), vals.Hash()
 		b.Header.ConsensusHash = types.HashConsensusParams(*types.DefaultConsensusParams())
 		b.Header.LastResultsHash = lastResults
+		b.Header.AppHash = vpAppRoot()
 		b.Header.ProposerAddress = vals.Validators[0].Address
 		ps := b.MakePartSet(65536)
 		id := types.BlockID{Hash: b.Hash(), PartSetHeader: ps.Header()}
@@ -207,6 +211,41 @@ func (n *vpNext) Tx(ctx context.Context, hash []byte, prove bool) (*ctypes.Resul
 	return nil, errors.New("tx not found")
 }
 
+// the application's store: two key/value pairs under a simple Merkle tree of ValueOp leaves; its root is the app hash of every header
+var vpKeys = [][]byte{{'K'}, {'q'}}
+var vpVals = [][]byte{{0x01}, {0x02}}
+
+func vpKVLeaf(k, v []byte) []byte {
+	vh := tmhash.Sum(v)
+	bz := append([]byte{byte(len(k))}, k...)
+	bz = append(bz, byte(len(vh)))
+	return append(bz, vh...)
+}
+func vpAppProofs() ([]byte, []*merkle.Proof) {
+	return merkle.ProofsFromByteSlices([][]byte{vpKVLeaf(vpKeys[0], vpVals[0]), vpKVLeaf(vpKeys[1], vpVals[1])})
+}
+func vpAppRoot() []byte { r, _ := vpAppProofs(); return r }
+
+func (n *vpNext) ABCIQueryWithOptions(ctx context.Context, path string, data tmbytes.HexBytes, opts rpcclient.ABCIQueryOptions) (*ctypes.ResultABCIQuery, error) {
+	_, proofs := vpAppProofs()
+	key, val, opKey := vpKeys[0], vpVals[0], vpKeys[0]
+	switch n.tamper {
+	case 1: // another value under the genuine proof
+		val = []byte{vp.Byte("wrong-value")}
+		vp.Assume(val[0] != vpVals[0][0])
+	case 2: // the genuine proof of the stored key presented as the answer for another key (one symbolic letter)
+		kb := vp.Byte("other-key")
+		vp.Assume((kb >= 'a' && kb <= 'z' || kb >= 'A' && kb <= 'Z') && kb != vpKeys[0][0])
+		key = []byte{kb}
+	case 3: // key and operator key both renamed
+		kb := vp.Byte("other-key")
+		vp.Assume((kb >= 'a' && kb <= 'z' || kb >= 'A' && kb <= 'Z') && kb != vpKeys[0][0])
+		key, opKey = []byte{kb}, []byte{kb}
+	}
+	op := merkle.NewValueOp(opKey, proofs[0]).ProofOp()
+	return &ctypes.ResultABCIQuery{Response: abci.ResponseQuery{Key: key, Value: val, Height: 1, ProofOps: &tmcrypto.ProofOps{Ops: []tmcrypto.ProofOp{op}}}}, nil
+}
+
 // C20: honest answers are relayed; a falsified answer is refused.
 func vpC20(method int) {
 	c := vpMakeChain()
@@ -263,6 +302,19 @@ func vpC20(method int) {
 		if err == nil {
 			vp.Assert(bytes.Equal(res.Tx, tx) && res.Index == uint32(i) && res.Height == h, "C20.tx.relayed-transaction-is-the-proven-one")
 		}
+	case 5:
+		if !honest {
+			tamper = 1 + vp.Choice("tamper-query", 3)
+		}
+		next.tamper = tamper
+		qc := NewClient(next, vpLC{c}, KeyPathFn(func(path string, key []byte) (merkle.KeyPath, error) {
+			return merkle.KeyPath{}.AppendKey(key, merkle.KeyEncodingURL), nil
+		}))
+		res, err := qc.ABCIQueryWithOptions(ctx, "/store", vpKeys[0], rpcclient.ABCIQueryOptions{})
+		vpC20Check(honest, err, "abci-query")
+		if err == nil {
+			vp.Assert(bytes.Equal(res.Response.Key, vpKeys[0]) && bytes.Equal(res.Response.Value, vpVals[0]), "C20.query.relayed-pair-is-the-proven-one")
+		}
 	case 4:
 		res, err := cl.Commit(ctx, &h)
 		vp.Assert(err == nil && bytes.Equal(res.SignedHeader.Hash(), c.ids[h].Hash), "C20.commit.is-the-verified-signed-header")
@@ -294,3 +346,4 @@ func VP_C20_BlockByHash()  { vpC20(1) }
 func VP_C20_BlockResults() { vpC20(2) }
 func VP_C20_Tx()           { vpC20(3) }
 func VP_C20_CommitVals()   { vpC20(4) }
+func VP_C20_ABCIQuery()    { vpC20(5) }
